@@ -20,7 +20,10 @@ def run(mod, work, timeout=1500):
     os.makedirs(out)
     res = {"counters": {}, "violations": [], "nviol": 0, "known": {}, "problem": None, "selected": cfg.get("k", "")}
     try:
-        shutil.copytree(os.path.join(env.REPO, "test"), os.path.join(scratch, "test"),
+        src_tests = os.path.join(env.REPO, "test")
+        if not os.path.isdir(src_tests):
+            src_tests = "/repo/test"     # scratch copies of the tree under test carry only scoda/
+        shutil.copytree(src_tests, os.path.join(scratch, "test"),
                         ignore=shutil.ignore_patterns("__pycache__", "*.pyc", "out"))
         os.makedirs(os.path.join(scratch, "test", "out"), exist_ok=True)
         os.makedirs(os.path.join(scratch, "out"), exist_ok=True)
